@@ -102,6 +102,24 @@ pub fn run(ctx: &mut Ctx) {
             }
         }
     }
+    // string form of arrays: every array of length 1..3 over an 8-element alphabet (empty and nested
+    // arrays, nulls, objects next to each other), alone, wrapped and between strings
+    if release {
+        let el: Vec<Value> = ["1", r#""a""#, "null", "[]", "[[]]", "[null]", "[1,2]", "{}"].iter().map(|t| al::parse(t)).collect();
+        for n in 1..=3usize {
+            for t in al::tuples(&el, n) {
+                if !ctx.mine() {
+                    continue;
+                }
+                let v = Value::Array(t);
+                ctx.edge();
+                ctx.check("cat:array-form", &json!({"cat": [v]}), &null);
+                ctx.check("cat:array-form:between", &json!({"cat": ["x", v, "y"]}), &null);
+                ctx.check("cat:array-form:V", &json!({"cat": [{"var": "v"}, {"var": "v"}]}), &json!({"v": v}));
+                ctx.check("cat:array-form:wrapped", &json!({"cat": [[v], [v, v], [[v], 0]]}), &null);
+            }
+        }
+    }
     // substr
     let ss = strings(ctx.tier_thorough);
     let is = ints(ctx.tier_thorough);
